@@ -73,7 +73,8 @@ def ob_fault(op):
         before = snapshot(ctx)
         Faulty.calls = 0
         new = dict(schemes=["sha256_crypt", Faulty, "md5_crypt"], default="sha256_crypt", deprecated=["md5_crypt"],
-                   admin__context__default="md5_crypt" if False else "sha256_crypt")
+                   admin__context__default="sha256_crypt", faulty_scheme__x=1, admin__faulty_scheme__x=2, staff__faulty_scheme__x=3,
+                   staff__context__deprecated=["faulty_scheme"])
         try:
             if op == "update":
                 ctx.update(**new)
@@ -116,7 +117,8 @@ def replay_fault(op, k, kind):
     before = snapshot(ctx)
     Faulty.calls = 0
     new = dict(schemes=["sha256_crypt", Faulty, "md5_crypt"], default="sha256_crypt", deprecated=["md5_crypt"],
-               admin__context__default="sha256_crypt")
+               admin__context__default="sha256_crypt", faulty_scheme__x=1, admin__faulty_scheme__x=2, staff__faulty_scheme__x=3,
+               staff__context__deprecated=["faulty_scheme"])
     try:
         if op == "update":
             ctx.update(**new)
